@@ -85,8 +85,9 @@ def run_tlc(module, cfg_text, env=None, workers=None, timeout=1500, extra=(), ta
     d = fresh(tag or module)
     cfg = d / f"{module}.cfg"
     cfg.write_text(cfg_text)
+    (d / "jtmp").mkdir(exist_ok=True)            # TLC leaves one empty tlc-* directory per run in java.io.tmpdir
     cmd = [
-        "java", "-XX:+UseParallelGC", "-Xmx12g", "-Xss64m", "-cp", TLA_CP, "tlc2.TLC",
+        "java", "-XX:+UseParallelGC", "-Xmx12g", "-Xss64m", f"-Djava.io.tmpdir={d / 'jtmp'}", "-cp", TLA_CP, "tlc2.TLC",
         "-workers", str(workers or NCPU), "-metadir", str(d / "meta"), "-noGenerateSpecTE",
         "-config", str(cfg),
     ]
@@ -102,8 +103,9 @@ def run_tlc(module, cfg_text, env=None, workers=None, timeout=1500, extra=(), ta
         raise MachineryError(f"TLC timeout after {timeout}s: {module}") from ex
     finally:
         shutil.rmtree(d / "meta", ignore_errors=True)
+        shutil.rmtree(d / "jtmp", ignore_errors=True)
     out = p.stdout + p.stderr
-    res = TLCResult(out, p.returncode, time.time() - t0, " ".join(cmd[5:]))
+    res = TLCResult(out, p.returncode, time.time() - t0, " ".join(cmd[6:]))
     res.dir = d
     return res
 
